@@ -84,3 +84,5 @@ pub fn dispatch(cfg: &Cfg) -> Option<Report> {
         _ => return None,
     })
 }
+
+pub use dec::recprobe_child;
